@@ -226,6 +226,7 @@ func runC01(c *Case, e *Env) Outcome {
 		blockedW   int
 		srcFired   int
 		lastW, lastR uint64
+		handed       [][2][]byte
 	)
 	fail := func(cl, f string, a ...any) {
 		if viol == "" {
@@ -305,6 +306,14 @@ func runC01(c *Case, e *Env) Outcome {
 						pieces[ri] = append(pieces[ri], c01Piece{simrt.Stamp(), append([]byte(nil), b...)})
 					}
 				}
+				// what ReadAll hands out is delivered: keep the very slice to see that nobody writes into it
+				// afterwards (Read fills the caller's own buffer, which the caller reuses, so only ReadAll)
+				keep := func(b []byte) {
+					if len(b) > 0 {
+						handed = append(handed, [2][]byte{b, append([]byte(nil), b...)})
+					}
+				}
+				_ = keep
 				atEOF := func() {
 					eof[ri] = true
 					if closeCalls != nw && !faults {
@@ -330,6 +339,7 @@ func runC01(c *Case, e *Env) Outcome {
 						if rd.Kind == "read+readall" && cnt == rd.Switch {
 							b, _ := p.ReadAll()
 							add(b)
+							keep(b)
 							atEOF()
 							return
 						}
@@ -337,6 +347,7 @@ func runC01(c *Case, e *Env) Outcome {
 				case "readall":
 					b, _ := p.ReadAll()
 					add(b)
+					keep(b)
 					atEOF()
 				case "writeto":
 					sk := &c01Sink{}
@@ -393,6 +404,11 @@ func runC01(c *Case, e *Env) Outcome {
 	}
 	if viol != "" {
 		return violation(clause, "%s", viol)
+	}
+	for _, hb := range handed {
+		if string(hb[0]) != string(hb[1]) {
+			return violation("delivered-bytes-changed", "a slice returned by ReadAll was modified after it had been delivered: first difference at byte %d of %d", firstDiff(hb[0], hb[1]), len(hb[1]))
+		}
 	}
 	// ---- history checks
 	var all []c01Piece
